@@ -12,7 +12,7 @@ from typing import Dict, List, Set, Tuple
 
 from ..callgraph import get_resolver
 from ..exact import Exactness, Interp, FRAC, INT, PROB, TOP, NONE
-from ..index import FuncInfo, get_index, norm, calls_in, dotted
+from ..index import FuncInfo, get_index, norm, calls_in, dotted, walk_no_nested
 from ..registry import get_registry
 from ..report import Context, AnalysisError
 from .. import shots as shotsmod
@@ -53,6 +53,7 @@ def run(ctx: Context) -> None:
     )
     ctx.rule("C03a", "with shots given, every branch frequency is a Fraction built from integers (Fraction(int, shots), products and sums of such); budgets and counts are int(Fraction * shots)")
     ctx.rule("C03b", "steps reachable with shots=None never use shots numerically without a dominating None test")
+    ctx.rule("C03e", "a mapping keyed by a branch's outcome that Result fills from its branches accumulates (outcomes are not unique: several steps build one branch per sample)")
     ctx.rule("C03d", "every branch state handed on in a `shots is None` arm is the normalised projection (constructor with a normalization argument, or normalize() on the way), so that the weights read from it by the next measurement are conditional and the simulator's chain rule holds")
     ctx.rule("C03c", "in every `shots is None` arm the weights handed on are the probabilities themselves (times the parent branch's weight): no rescaling, no renormalisation")
     ex = Exactness(idx, res)
@@ -176,6 +177,7 @@ def run(ctx: Context) -> None:
     shotsmod.check_shots_none(ctx, idx, reg, "C03b")
     clause_c(ctx, idx)
     clause_d(ctx, idx)
+    clause_e(ctx, idx)
     ctx.assume("Branch.frequency of incoming branches is an exact Fraction when shots is given (the invariant this rule re-establishes at every construction site)")
 
 
@@ -398,3 +400,48 @@ def clause_d(ctx: Context, idx) -> None:
                                       f"branch's probability, and the simulator multiplies them by the branch weight again - measuring modes one after "
                                       f"another no longer gives the joint distribution", norm(b)[:140])
     ctx.require_floor("C03d post-measurement states handed on by steps reachable with shots=None", n, 3)
+
+
+def clause_e(ctx: Context, idx) -> None:
+    """Outcomes are not unique among the branches of a result: several steps build one branch per sample
+    (`Branch(.., outcome=o, frequency=Fraction(1, shots)) for o in samples`).  A mapping keyed by `branch.outcome` that is filled
+    from the branches must therefore accumulate; a plain store keeps only the last branch of each outcome and the counts no
+    longer sum to the number of shots."""
+    # premise: per-sample branches exist
+    per_sample = 0
+    for fn in idx.all_functions():
+        for n in walk_no_nested(fn.node):
+            if isinstance(n, (ast.ListComp, ast.GeneratorExp)) and isinstance(n.elt, ast.Call) and (dotted(n.elt.func) or "").split(".")[-1] == "Branch":
+                fr = next((k.value for k in n.elt.keywords if k.arg == "frequency"), None)
+                if isinstance(fr, ast.Call) and (dotted(fr.func) or "").split(".")[-1] == "Fraction" and len(fr.args) == 2 \
+                        and isinstance(fr.args[0], ast.Constant) and fr.args[0].value == 1:
+                    per_sample += 1
+    ctx.count("C03e steps that build one branch per sample", per_sample)
+    res_cls = idx.find_class("piquasso.api.result", "Result")
+    n = 0
+    for m in res_cls.methods.values():
+        for loop in walk_no_nested(m.node):
+            if not isinstance(loop, ast.For) or not isinstance(loop.target, ast.Name):
+                continue
+            if "branches" not in norm(loop.iter):
+                continue
+            b = loop.target.id
+            for st in ast.walk(loop):
+                if isinstance(st, (ast.Assign, ast.AugAssign)):
+                    t = st.targets[0] if isinstance(st, ast.Assign) else st.target
+                    if isinstance(t, ast.Subscript) and norm(t.slice) == f"{b}.outcome" and isinstance(t.value, ast.Name):
+                        n += 1
+                        d = t.value.id
+                        accumulates = isinstance(st, ast.AugAssign) or any(
+                            (isinstance(x, ast.Subscript) and norm(x) == norm(t) and isinstance(x.ctx, ast.Load))
+                            or (isinstance(x, ast.Call) and isinstance(x.func, ast.Attribute) and x.func.attr in ("get", "setdefault")
+                                and isinstance(x.func.value, ast.Name) and x.func.value.id == d)
+                            for x in ast.walk(st.value))
+                        key = f"{m.qualname}|{d}[{b}.outcome]"
+                        ok = accumulates or per_sample == 0
+                        ctx.obligation("C03e", key, ok, f"{ctx.relpath(m.file)}:{st.lineno}")
+                        if not ok:
+                            ctx.violation("C03e", key, m.file, st.lineno,
+                                          f"`{norm(st)[:70]}` overwrites the entry of an earlier branch with the same outcome; {per_sample} steps build one "
+                                          f"branch per sample, so the counts of a result do not sum to the number of shots", norm(st)[:100])
+    ctx.require_floor("C03e stores keyed by a branch's outcome in Result", n, 1)
